@@ -252,6 +252,12 @@ def run(rep):
         rot = T12[r:] + T12[:r]
         for tb in ([1] * 12, [2] * 6) if (quick and r % 2) or not quick else ([1] * 12,):
             tasks.append(('cfg', (rep.prop, rot, U4, [tb], [[4]], threads, [0], agg)))
+    # row-count gates of the parallel aggregation (> 50,000 rows: batch splitting when batches < threads; > 100,000 rows: morsel-parallel grouped
+    # aggregation): 105,000 rows in 1 and in 8 batches under 1, 2 and 16 threads
+    huge = [[r[0], r[1], r[2]] for r in T6] * 17500      # 105,000 rows
+    hagg = [x for x in st if x['tag'] in ('global-agg', 'global-minmax', 'group', 'group-str', 'group-minmax', 'group-minmax-distinct', 'having', 'distinct')]
+    for tb in ([105000], [13125] * 8):
+        tasks.insert(0, ('cfg', (rep.prop, huge, U4, [tb], [[4]], [1, 2, 16], [None], hagg)))      # first: the long tasks must not be the tail
     if not quick:
         # production gate (>= 1000 rows) opens without the hook
         big = [[r[0], r[1], r[2]] for r in T6] * 250
@@ -267,7 +273,7 @@ def run(rep):
         for th in ([3] if quick else [2, 4]):
             for i in range(0, len(st), 6):
                 tasks.append(('sched', (rep.prop, T6, U4, tb, ub, th, bound, cap, st[i:i + 6])))
-    rep.rule = ('(A) tables t (6 rows: NULLs, duplicates) and u (4 rows): every composition of t into 1..%d batches x every composition of u into 1..%d batches, plus 12 rows in 6/12/8 batches and, for the aggregate statements, every rotation of those 12 rows over 12 and 6 batches%s; '
+    rep.rule = ('(A) tables t (6 rows: NULLs, duplicates) and u (4 rows): every composition of t into 1..%d batches x every composition of u into 1..%d batches, plus 12 rows in 6/12/8 batches and, for the aggregate statements, every rotation of those 12 rows over 12 and 6 batches, and 105,000 rows in 1 and 8 batches (the 50,000- and 100,000-row gates of the parallel aggregation)%s; '
                 'x RAYON_NUM_THREADS {1,2,3,16} x partition gate {production, open (hook H3)}; %d statements (LIMIT/OFFSET, top-k, sort, UNION [ALL], INTERSECT/EXCEPT, DISTINCT, grouped/global aggregates, '
                 'inner/left/right/full/semi/anti joins, scalar subquery, windows, CTE); oracle: answer (multiset, or sequence up to ties under ORDER BY, LIMIT slices up to ties) equals the 1-batch/1-thread answer and never fails. '
                 '(B) every declared partition of every operator of every physical plan is executed once on a fresh plan and must not fail; the root partitions concatenated equal the answer. '
